@@ -1,7 +1,15 @@
 """Family `container`: C04, C05 (spec/Container.tla, monitor spec/ContainerTrace.tla) and C14
 (spec/ContainerRoster.tla, monitor spec/ContainerRosterTrace.tla); one Go driver package harness/container
 with two modes selected by VERIF_FAMMODE."""
+import os
+
 import vcheck as V
+
+# The trace monitors describe the code as it is: their cfg files switch on the deviations the current tree has
+# (Dev = {"StaleAlias"} / {"DupSig"}), so that recorded steps are steps of the Spec (zero drift). After the repairs
+# notes/reports/container-fix-*.diff are applied, run with VERIF_CONTAINER_FIXED=1 (or set Dev = {} in the two
+# *Trace.cfg files): the Spec then describes the repaired behaviour.
+FIXED = {"Dev": "{}"} if os.environ.get("VERIF_CONTAINER_FIXED") else None
 
 COMMON_ASSUME = [
     "neo-go v0.107.0 compiler/VM/ledger/neotest are faithful to the production platform (transaction atomicity on FAULT, "
@@ -17,6 +25,7 @@ class Registry(V.Family):
     props = ("C04", "C05")
     driver_pkg = "container"
     monitor = ("ContainerTrace.tla", "ContainerTrace.cfg")
+    monitor_constants = FIXED
     step_keys = ("act", "S", "c", "v", "nm", "meta", "o", "k", "amt")
     assume = COMMON_ASSUME + [
         "the Container alias TLD is registered by the committee before Container is deployed (the deploy transaction of "
@@ -78,6 +87,7 @@ class Roster(V.Family):
     props = ("C14",)
     driver_pkg = "container"
     monitor = ("ContainerRosterTrace.tla", "ContainerRosterTrace.cfg")
+    monitor_constants = FIXED
     step_keys = ("act", "S", "c", "v", "from", "len", "bk", "rs", "m", "sigs")
     reset_keys = ("n", "src")
     assume = COMMON_ASSUME + [
@@ -117,6 +127,8 @@ class Roster(V.Family):
                 for v in vs:
                     mx = max(mx, len(v))
         return dict(committee_sizes=sorted(set(r["n"] for r in trace_all if r["act"] == "reset")), longest_committed_vector=mx,
+                    accepted_nonvacuous=sum(1 for r in trace_all if r["act"] in ("verify", "submit") and r["res"] == "HALT" and
+                                            (r["ret"] == "true" or r["act"] == "submit") and len(r["obs"]["reps"][r["c"]]) > 0),
                     accepted_matrices=sum(1 for r in trace_all if r["act"] in ("verify", "submit") and
                                           (r["ret"] == "true" or (r["act"] == "submit" and r["res"] == "HALT"))),
                     rejected_matrices=sum(1 for r in trace_all if (r["act"] == "verify" and r["ret"] == "false") or
